@@ -192,9 +192,9 @@ func (n *Network) edgeBetween(uid, vid int64, directed bool) *Link {
 						// make sure that control node is on the outgoing side
 						if uNode != nil {
 							return incoming
-						} else {
-							return nil
 						}
+						// wrong direction, but the ordinary node can still be among the outputs of this control node
+						break
 					}
 				}
 			}
